@@ -1355,9 +1355,12 @@ static void run_eloss_case(vf::Run& R, std::string const& cid, LogSpec const& sp
                                 fmt("%s = %s > E", what.c_str(), vf::dstr(loss).c_str()));
                 // regime: linear if step*rate < lll*E.  one rounding in each product: within
                 // 4 eps of the threshold either branch is legitimate
+                // (products that land in the subnormal range - lll = 1e-300 - are rounded to a multiple
+                // of the smallest subnormal: absolute term)
+                ld const dmin = 2 * (ld)std::numeric_limits<double>::denorm_min();
                 ld lin = (ld)s * (ld)rate, thr = (ld)lll * (ld)E;
-                int regime = lin < thr * (1 - 4 * EPS) ? 1 : (lin > thr * (1 + 4 * EPS) ? 2 : 0);
-                ld tol_lin = 4 * EPS * lin;
+                int regime = lin < thr * (1 - 4 * EPS) - dmin ? 1 : (lin > thr * (1 + 4 * EPS) + dmin ? 2 : 0);
+                ld tol_lin = 4 * EPS * lin + dmin;
                 ld rem = (ld)range - (ld)s;
                 Cand inv = rorc.inverse((double)rem);
                 // range - step is rounded once: the remaining range moves by <= eps*range
